@@ -33,6 +33,7 @@ class Engine(Interp, InterpExpr, InterpComp, InterpStmt, InterpCall, InterpBuilt
         self.effects_base = []
         self.call_stack = []
         self.entry_vars = {}
+        self.external_results = []
         self.clock = z3.Const('clock@0', R)
 
     def eval_term(self, con, clause, fr, extra):
@@ -243,6 +244,8 @@ class Engine(Interp, InterpExpr, InterpComp, InterpStmt, InterpCall, InterpBuilt
         if con.target == 'time.monotonic':
             self.run.assume(result.t >= self.clock)
             self.clock = result.t
+        if result is not None:
+            self.external_results.append((con.target, result))
         for cl in con.post:
             self.run.assume(self.eval_clause(cl, con.module, bindings))
         return result
@@ -488,15 +491,19 @@ def _run_path(eng, world, con, fi, variant, res, runner):
 
 
 def _probe(eng, bindings):
+    """model -> JSON scenario (object graph of the pre-state reachable from the parameters), see concrete.py"""
     def probe(model):
-        out = {}
-        for k, v in bindings.items():
-            try:
-                if isinstance(v, SV):
-                    out[k] = str(model.eval(v.t, model_completion=True))
-                elif isinstance(v, HeapVal):
-                    out[k] = f'{type(v).__name__}@{model.eval(v.ref, model_completion=True)}'
-            except Exception:
-                pass
-        return out
+        vars_ = {k: v for k, v in eng.entry_vars.items()}
+        try:
+            from . import concrete
+            return concrete.extract_scenario(eng, model, vars_)
+        except Exception as e:   # extraction must never break a verdict
+            out = {'extraction_error': f'{type(e).__name__}: {e}'}
+            for k, v in vars_.items():
+                try:
+                    if isinstance(v, SV):
+                        out[k] = str(model.eval(v.t, model_completion=True))
+                except Exception:
+                    pass
+            return out
     return probe
